@@ -21,6 +21,7 @@ def main():
         else:
             i += 1
     seed = int(os.environ.get('VERIF_SEED', '1') or 1)
+    os.environ['VERIF_TIER_EFFECTIVE'] = tier
     mod = importlib.import_module(prop.lower())
     if replay:
         return mod.replay(replay)
